@@ -63,6 +63,16 @@ def run(tier):
             a, b = case(rec, cfg, agent, s, op)
             runs.append((a, b, dict(s=s, op=op, cls=t["cls"])))
             chk.case((bytes(s).hex(), op), nontrivial=46 in s)
+    # OIDs whose contents cross the length-form boundaries of their own TLV header (127/128, 255/256 octets) and go far beyond:
+    # up to 128 arcs of up to 5 octets each are legal
+    long_texts = []
+    for arcs, val in ((42, 16384), (43, 16384), (62, 4294967295), (85, 16384), (86, 16384), (51, 4294967295), (52, 4294967295), (126, 16384), (126, 4294967295), (100, 268435456)):
+        long_texts.append("1.3" + (".%d" % val) * arcs)
+    for i, txt in enumerate(long_texts):
+        for op in ("get", "get_many", "getnext", "getbulk"):
+            a, b = case(rec, cfg, agent, list(txt.encode()), op)
+            runs.append((a, b, dict(s=list(txt.encode()), op=op, cls=0)))
+            chk.case(("long", i, op))
     # rendering inside walks: rows whose names differ in the last sub-identifier only (a getbulk reply is rendered by one iterator),
     # asked for under text bases with the same arcs; last arcs on both sides of every base-128 length step
     from checks import c02
